@@ -25,6 +25,8 @@ class YowProfilesProtocolLayer(YowProtocolLayer):
             self._sendIq(entity, self.onGetStatusesResult, self.onGetStatusesError)
         elif isinstance(entity, SetStatusIqProtocolEntity):
             self._sendIq(entity, self.onSetStatusResult, self.onSetStatusError)
+        elif isinstance(entity, UnregisterIqProtocolEntity):
+            self.entityToLower(entity)
 
 
     def recvIq(self, node):
